@@ -42,9 +42,13 @@ def parseStep (s : String) : Option Step :=
 def parseSched (s : String) : Option (List Step) :=
   if s == "-" then some [] else (s.splitOn ",").mapM parseStep
 
-/-- `16` or `16r` (recycled buffer: same model, the result must not depend on it) -/
+/-- `16`, `16r` or `16r7b` (recycled buffer, optionally left filled with a byte: same model, the result must
+not depend on what lies behind the window) -/
 def parseCap (s : String) : Option Nat :=
-  if s.endsWith "r" then ((s.dropEnd 1).toString).toNat? else s.toNat?
+  match s.splitOn "r" with
+  | [n] => n.toNat?
+  | [n, _] => n.toNat?
+  | _ => none
 
 def mkReader (cap : Nat) (sched : List Step) (d : Bytes) : Reader :=
   if cap == 0 then fromSlice d else fromReader cap sched d
@@ -152,6 +156,12 @@ def handle : Handler
   | ["tlex", h] => (parseHex h).map fun d =>
       let r := sliceTokens d
       s!"{joinToks (r.toks.map showTok)} {showOutcome r.out} {r.final.position}"
+  | ["tlexg", g, h] => do
+      -- guard bytes behind the sub-slice are not part of the input: same answer as `tlex`
+      let _ ← parseHex g
+      let d ← parseHex h
+      let r := sliceTokens d
+      pure s!"{joinToks (r.toks.map showTok)} {showOutcome r.out} {r.final.position}"
   | ["tstream", c, s, h] => do
       let cap ← parseCap c
       let sched ← parseSched s
